@@ -145,12 +145,19 @@ Finish(kw, semi, trailer) ==
           \o (IF trailer THEN << Tk(S("this is = ( not \" read"), "req") >> ELSE <<>>))
    /\ phase' = "ended" /\ UNCHANGED <<stk, nst, lay>>
 
-Vary == ~varied /\ varied' = TRUE        \* this statement is the one spelled from the full tables
+(* C08: an assignment whose value is missing; its placeholder carries the line of its '=', known once the layout is chosen *)
+AssignMissing(nm, semi) ==
+   /\ phase = "build" /\ nst < MaxStmts /\ Profile = "missing"
+   /\ Put(<< Tk(nm, "req"), Tk(S("="), "opt") >> \o (IF semi THEN << Tk(S(";"), "opt") >> ELSE <<>>))
+   /\ AddItem(N("item", nm, << N("emptyAt", Dec(Len(toks) + 2), <<>>) >>))      \* index of the '=' token
+   /\ nst' = nst + 1 /\ UNCHANGED <<phase, lay>>
+Vary == ~varied /\ varied' = TRUE /\ Profile # "missing"    \* (the missing-value profile keeps everything else canonical)        \* this statement is the one spelled from the full tables
 Same == UNCHANGED varied
 CanonName == IF nst % 2 = 0 THEN S("b") ELSE S("c")
 EndOf(cls) == IF cls = "PVLGroup" THEN S("END_GROUP") ELSE S("END_OBJECT")
 Build ==
    \/ Assign(CanonName, One, FALSE) /\ Same
+   \/ \E semi \in BOOLEAN : AssignMissing(CanonName, semi) /\ Same
    \/ \E x \in Vuse, semi \in BOOLEAN : Assign(S("a"), x, semi) /\ Vary
    \/ \E nm \in NamesFull : Assign(nm, Qs, FALSE) /\ Vary
    \/ Begin(S("GROUP"), "PVLGroup", S("g1"), FALSE) /\ Same
@@ -168,12 +175,13 @@ SepsBase == << <<32>>, <<9>>, <<10>>, <<13>>, <<11>>, <<12>>, <<13, 10>>, <<32, 
                S("/* \" ' */"), S("/* = */"), S("/* END */"), S("/**//**/"), S("/* < */") >>
 SepsHash == << S(" # c") \o LF, LF \o S("#c") \o LF \o S("  "), S(" # /* c") \o LF, S(" # = END ' \"") \o LF >>
 Seps == IF HashComments(Dialect) THEN SepsBase \o SepsHash ELSE SepsBase
-Styles == << [opt |-> <<>>, req |-> <<32>>], [opt |-> <<32>>, req |-> <<10>>], [opt |-> <<9>>, req |-> <<13, 10, 32, 32>>] >>
+Styles == << [opt |-> <<>>, req |-> <<32>>], [opt |-> <<32>>, req |-> <<10>>], [opt |-> <<9>>, req |-> <<13, 10, 32, 32>>],
+            [opt |-> <<10>>, req |-> <<10, 10>>] >>          \* every token on its own line, blank lines between statements
 
 ChooseLayout ==
    /\ phase = "ended" /\ phase' = "laid" /\ UNCHANGED <<toks, stk, nst, varied>>
-   /\ \/ \E s \in 1..Len(Styles) : lay' = [k |-> "style", gap |-> 0, sep |-> s]
-      \/ /\ Profile = "layout"
+   /\ \/ \E sty \in 1..Len(Styles) : lay' = [k |-> "style", gap |-> 0, sep |-> sty]
+      \/ /\ Profile \in {"layout", "missing"}
          /\ \E gi \in 2..Len(toks), si \in 0..Len(Seps) :
               /\ (si = 0 => toks[gi].g = "opt")                 \* removing the separator: only where optional
               /\ lay' = [k |-> "one", gap |-> gi, sep |-> si]
@@ -186,11 +194,26 @@ SepFor(i) == IF lay.k = "style" THEN (IF toks[i].g = "opt" THEN Styles[lay.sep].
 RECURSIVE Concat(_)
 Concat(i) == IF i > Len(toks) THEN <<>> ELSE (IF i = 1 THEN <<>> ELSE SepFor(i)) \o toks[i].t \o Concat(i + 1)
 Text == Concat(1)
-Tree == N("PVLModule", <<>>, stk[1].items)
+RECURSIVE Before(_)                 \* the text in front of token k
+Before(k) == IF k = 1 THEN <<>> ELSE Before(k - 1) \o toks[k - 1].t \o SepFor(k)
+TokLine(k) == 1 + LFsIn(Before(k), 1, Len(Before(k)) + 1)
+RECURSIVE Resolve(_)
+Resolve(n) == IF n.t = "emptyAt" THEN Empty(TokLine(NumVal(n.s)))
+              ELSE N(n.t, n.s, [k \in 1..Len(n.xs) |-> Resolve(n.xs[k])])
+RECURSIVE MissingLines(_)
+MissingLines(n) == IF n.t = "emptyAt" THEN << TokLine(NumVal(n.s)) >>
+                   ELSE IF n.xs = <<>> THEN <<>> ELSE LET RECURSIVE Cat(_)
+                                                        Cat(k) == IF k > Len(n.xs) THEN <<>> ELSE MissingLines(n.xs[k]) \o Cat(k + 1)
+                                                    IN Cat(1)
+RawTree == N("PVLModule", <<>>, stk[1].items)
+Tree == Resolve(RawTree)
+Errs == MissingLines(RawTree)
 
 (* reader = writer on the model, for every layout *)
 RefReadsGenerated == phase = "laid" =>
-    LET o == Load(Dialect, Text) IN o.verdict = "accept" /\ o.tree = Tree /\ o.errs = <<>>
+    LET o == Load(Dialect, Text) IN
+    IF Errs # <<>> /\ ~Tolerant(Dialect) THEN o.verdict = "reject"          \* the strict dialects do not tolerate a missing value
+    ELSE o.verdict = "accept" /\ o.tree = Tree /\ o.errs = Errs
 (* ---- C18: what the tree becomes when the caller substitutes classes ---- *)
 Hooks == { [id |-> "decimal",  real |-> "decimal",  qty |-> "qty",        mod |-> "PVLModule", grp |-> "PVLGroup", obj |-> "PVLObject"],
            [id |-> "recording", real |-> "RecStr",  qty |-> "qty:RecQty", mod |-> "MyModule",  grp |-> "MyGroup",  obj |-> "MyObject"],
@@ -215,6 +238,6 @@ Untag(n, h) ==
        [] n.t = h.obj -> "PVLObject" [] OTHER -> n.t, n.s, kids)
 RetagChangesNothingElse == phase = "laid" => \A h \in Hooks : Untag(Retag(Tree, h), h) = Tree
 EmitCase == (Emit /\ phase = "laid") =>
-   PrintT(ToJson([text |-> Text, tree |-> Tree, lay |-> lay, ntok |-> Len(toks), toks |-> [k \in 1..Len(toks) |-> toks[k].t],
+   PrintT(ToJson([text |-> Text, tree |-> Tree, errs |-> Errs, lay |-> lay, ntok |-> Len(toks), toks |-> [k \in 1..Len(toks) |-> toks[k].t],
                   rt |-> IF Profile = "hooks" THEN [h \in {x.id : x \in Hooks} |-> Retag(Tree, CHOOSE x \in Hooks : x.id = h)] ELSE <<>>]))
 =============================================================================
